@@ -192,6 +192,48 @@ CLAIMED.update({
             "DESIGN.md 5 C28"),
 })
 
+CLAIMED.update({
+    "C14": ("model_checking",
+            "SchemaRules.tla: the type-system validation rules as predicates over an abstract schema, apollo's documented differences "
+            "as named switches. Seed schemas using every construct, every single structure-aware mutation at every position, sampled "
+            "double mutations, mutate-until-valid chains and projected corpus schemas are validated by the real code; TLC evaluates "
+            "Valid(schema) for each and requires equality of verdicts.",
+            "SchemaRules.tla is my transcription of the rules (graphql-js semantics where the text is silent); one known finding "
+            "(@deprecated on required arguments / input fields accepted).",
+            "TLA+ reference rules evaluated by TLC on recorded (schema, verdict) traces from structure-aware mutation",
+            "DESIGN.md 5 C14"),
+    "C15": ("model_checking",
+            "The same traces as C14: for every schema the real validator ACCEPTS, TLC evaluates the guarantees a Valid<Schema> promises "
+            "(every referenced type exists and has the right kind for its position, roots are distinct objects, interfaces implemented "
+            "incl. transitively, unions non-empty of objects, no reserved names, directive applications defined and located) as "
+            "separate invariants of SchemaRules.tla.",
+            "Guarantees are those derivable from the rules of SchemaRules.tla.",
+            "TLA+ invariants over accepted schemas evaluated by TLC on recorded traces",
+            "DESIGN.md 5 C15"),
+    "C17": ("model_checking",
+            "ExecRules.tla: the operation-validation rules as predicates over an abstract executable document and abstract schema, "
+            "apollo's named differences as switches. Seed documents using every construct, every single structure-aware mutation at "
+            "every position and sampled double mutations are rendered, parsed, projected back (self-check) and validated by the real "
+            "code; TLC evaluates Valid(doc) for each and requires equality of verdicts.",
+            "One fixed schema; scalar literals abstracted to their kind (Int values kept); no @defer, no custom scalars.",
+            "TLA+ reference rules evaluated by TLC on recorded (document, verdict) traces from structure-aware mutation",
+            "DESIGN.md 5 C17"),
+    "C18": ("model_checking",
+            "From the documents of C17 (valid or not) the built document's typing facts (field definition and sub-selection type, "
+            "inline fragment / fragment / operation selection-set types) and, for valid documents, the fields visited by "
+            "root_fields / all_fields are recorded; TLC requires each fact to follow from the abstract schema, ValidGuarantees for "
+            "accepted documents and bag-equality of the iterators with Walk(doc, sels, deep) of ExecRules.tla.",
+            "Iterators compared as bags (order not demanded); one fixed schema.",
+            "TLA+ typing and traversal operators evaluated by TLC on recorded facts of built documents",
+            "DESIGN.md 5 C18"),
+    "C20": ("model_checking",
+            "From the documents of C17 both verdicts are recorded; TLC requires ok => standalone and StandaloneValid(doc) => standalone, "
+            "StandaloneValid being the schema-independent rules of ExecRules.tla.",
+            "The converse (standalone reports every schema-independent error) is not demanded: the property does not state it.",
+            "TLA+ schema-independent rule set evaluated by TLC on recorded verdict pairs",
+            "DESIGN.md 5 C20"),
+})
+
 NOT_APPLICABLE = {}
 
 ALL = ["C%02d" % i for i in range(1, 34)]
